@@ -134,12 +134,79 @@ def serialize_impls(res, facts):
             res.violate("C14.R2", b["id"], "claim serialisation", "each claim must serialise as exactly one map entry (its key field, its value field); %s" % why, file=v.file(), line=b["line"])
 
 
+def set_claim_concrete(facts, b):
+    """GenericBuilder::set_claim interpreted once per shape of the claim's serialised form, given concretely: Null, Bool, Number, String, an
+    array, {}, {key: X} (the one-entry map every claim type of the crate serialises to - its value X is what must be stored), {other: X},
+    {key: X, other: Y}; and with an empty key.  Afterwards the builder's claim map must hold exactly {key: expected} (nothing for an empty
+    key).  Returns [(ok, description / message)] or None when a run is undecided."""
+    from .. import models_iter as MI
+    V = "serde_json::value::Value"
+
+    def val(variant, payload=None):
+        return A.Struct(V, variant, {} if payload is None else {"0": payload})
+
+    def show(I, st, x):
+        x = MD.deref(I, st, x)
+        if isinstance(x, A.Struct) and x.adt == V:
+            return "%s(%s)" % (x.variant, show(I, st, x.fields.get("0"))) if "0" in x.fields else str(x.variant)
+        if MI.is_map(x):
+            return "{" + ", ".join("%s: %s" % kv for kv in sorted((str(MD.str_key(I, st, e.fields["0"])[1]), show(I, st, e.fields["1"])) for e in MI._entries(x))) + "}"
+        if isinstance(x, A.Seq) and x.elems is not None:
+            return "[" + ", ".join(show(I, st, e) for e in x.elems) + "]"
+        return getattr(x, "name", repr(x))
+    om = lambda ents: val("Object", MI.mapv("obj", [(A.StrV(k), A.Sym(n, attrs={"adt": V})) for k, n in ents]))
+    cases = [("Null", lambda: val("Null"), "Null"), ("Bool", lambda: val("Bool", A.Sym("B")), "Bool(B)"), ("Number", lambda: val("Number", A.Sym("N")), "Number(N)"),
+             ("String", lambda: val("String", A.Sym("S")), "String(S)"), ("array", lambda: val("Array", A.Seq("arr", A.Aff(1), [A.Sym("E")], kind="vec")), "Array([E])"),
+             ("empty object", lambda: om([]), "Object({})"), ("one-entry map {key: X}", lambda: om([("K", "X")]), "X"),
+             ("one-entry map {other: X}", lambda: om([("other", "X")]), "Object({other: X})"), ("two-entry map {key: X, other: Y}", lambda: om([("K", "X"), ("other", "Y")]), "Object({K: X, other: Y})")]
+    out = []
+    for key in ("K", ""):
+        for name, mk, want in (cases if key == "K" else cases[6:7]):
+            jv = mk()
+
+            def m_json(I_, st_, info, args_, depth, jv=jv):
+                return [(st_, "return", A.ok(jv))]
+            I = A.Interp(facts, [(re.compile(r"^serde_json::de::(from_slice|from_str)$|^serde_json::value::to_value$"), m_json)] + MD.MODELS)
+            I.concrete_maps = True
+            st = A.State()
+            me_v = A.Struct("crate::generic::builders::generic_builder::GenericBuilder", None, {
+                "version": A.UNIT, "purpose": A.UNIT, "claims": MI.mapv("claims", []),
+                "footer": A.Sym("self.footer", attrs={"adt": "core::option::Option"}), "implicit_assertion": A.Sym("self.implicit_assertion", attrs={"adt": "core::option::Option"})})
+            me = st.new_cell(me_v)
+            outs = I.run(b, [A.Ptr(me), A.Sym("value", attrs={"claim_key": key})], st)
+            rets = [o for o in outs if o.kind == "return"]
+            if not rets or any(o.kind not in ("return", "panic") or o.state.unmodelled or _fpai.undecided(o) for o in outs):
+                return None
+            for o in rets:
+                cur = MD.deref(I, o.state, A.Ptr(me))
+                m = MD.deref(I, o.state, cur.fields.get("claims")) if isinstance(cur, A.Struct) else None
+                if not MI.is_map(m):
+                    return None
+                got = dict((str(MD.str_key(I, o.state, e.fields["0"])[1]), show(I, o.state, e.fields["1"])) for e in MI._entries(m))
+                exp = {} if key == "" else {"K": want}
+                lab = "set_claim [%s%s]" % (name, ", empty key" if key == "" else "")
+                if got == exp:
+                    out.append((True, "%s: %s" % (lab, "nothing stored" if key == "" else "stored as %s under the claim's key" % want)))
+                else:
+                    out.append((False, "%s: the claim map becomes %s, expected %s" % (lab, got, exp)))
+    return out
+
+
 def set_claim(res, facts):
     b = _fpai.find_body(facts, GB + r"set_claim$")
     if b is None:
         res.violate("C14.R3", "GenericBuilder::set_claim", "anchor missing", "not found")
         return
     v = M.view(facts, b)
+    conc = set_claim_concrete(facts, b)
+    if conc is not None:
+        for okk, text in conc:
+            res.oblige(okk)
+            if okk:
+                res.inst("C14.R3", text)
+            else:
+                res.violate("C14.R3", b["id"], "claim storage (%s)" % text.split(":")[0], text, file=v.file(), line=b["line"])
+        return
     I, me, outs = _fpai.run_on_self(facts, b, [A.Sym("value")], stubs=[])
     seen = set()
     for o in outs:
@@ -436,7 +503,60 @@ def wrap(res, facts):
                 res.violate("C14.R5", b["id"], "%s alters the claim set (%s)" % (fn, name), "; ".join(sorted(set(problems)))[:500], file=v.file(), line=b["line"])
 
 
+def mutator_contracts(facts):
+    """remove_claim / extend_claims of GenericBuilder on a concrete claim map {K: old, other: o2}: remove_claim(K) leaves {other: o2},
+    remove_claim(absent) changes nothing, extend_claims({K: new, fresh: f}) gives {K: new, other: o2, fresh: f}.
+    dict function name -> (ok, text) or None when undecided."""
+    from .. import models_iter as MI
+    out = {}
+
+    def run(name, mkarg, want, pre=(("K", "old"), ("other", "o2"))):
+        b = _fpai.find_body(facts, GB + name + r"$")
+        if b is None:
+            return None
+        I = A.Interp(facts, MD.MODELS)
+        I.concrete_maps = True
+        st = A.State()
+        me_v = A.Struct("crate::generic::builders::generic_builder::GenericBuilder", None, {
+            "version": A.UNIT, "purpose": A.UNIT, "claims": MI.mapv("claims", [(A.StrV(k), A.Sym(n)) for k, n in pre]),
+            "footer": A.Sym("self.footer", attrs={"adt": "core::option::Option"}), "implicit_assertion": A.Sym("self.implicit_assertion", attrs={"adt": "core::option::Option"})})
+        me = st.new_cell(me_v)
+        outs = I.run(b, [A.Ptr(me), mkarg(st)], st)
+        if not outs or any(o.kind != "return" or o.state.unmodelled or _fpai.undecided(o) for o in outs):
+            return None
+        for o in outs:
+            cur = MD.deref(I, o.state, A.Ptr(me))
+            m = MD.deref(I, o.state, cur.fields.get("claims")) if isinstance(cur, A.Struct) else None
+            if not MI.is_map(m):
+                return None
+            got = dict((str(MD.str_key(I, o.state, e.fields["0"])[1]), getattr(MD.deref(I, o.state, e.fields["1"]), "name", "?")) for e in MI._entries(m))
+            if got != want:
+                return (False, "the claim map becomes %s, expected %s" % (got, want))
+        return (True, "claim map %s" % want)
+    r1 = run("remove_claim", lambda st: A.StrV("K"), {"other": "o2"})
+    r2 = run("remove_claim", lambda st: A.StrV("absent"), {"K": "old", "other": "o2"})
+    out["remove_claim"] = None if (r1 is None or r2 is None) else ((r1[0] and r2[0]), "remove_claim(K): %s; remove_claim(absent): %s" % (r1[1], r2[1]))
+    r3 = run("extend_claims", lambda st: MI.mapv("arg", [(A.StrV("K"), A.Sym("new")), (A.StrV("fresh"), A.Sym("f"))]), {"K": "new", "other": "o2", "fresh": "f"})
+    # (also with an incoming map larger than the one held, and into an empty builder: the later value wins whichever side is bigger)
+    r4 = run("extend_claims", lambda st: MI.mapv("arg", [(A.StrV("K"), A.Sym("new")), (A.StrV("fresh"), A.Sym("f")), (A.StrV("more"), A.Sym("g"))]), {"K": "new", "fresh": "f", "more": "g"}, pre=(("K", "old"),))
+    r5 = run("extend_claims", lambda st: MI.mapv("arg", [(A.StrV("K"), A.Sym("new"))]), {"K": "new"}, pre=())
+    rs = [r3, r4, r5]
+    out["extend_claims"] = None if any(r is None for r in rs) else (all(r[0] for r in rs), "extend_claims({K: new, fresh: f}) on {K, other}: %s; a larger map on {K}: %s; on an empty builder: %s" % (r3[1], r4[1], r5[1]))
+    return out
+
+
 def writers(res, facts):
+    mc = mutator_contracts(facts)
+    for fn, r in sorted(mc.items()):
+        if r is None:
+            continue
+        b_ = _fpai.find_body(facts, GB + fn + r"$")
+        res.oblige(r[0])
+        if r[0]:
+            res.inst("C14.R3", "%s on a concrete claim map: %s" % (fn, r[1]))
+        else:
+            res.violate("C14.R3", b_["id"], "%s contract" % fn, r[1], file=M.view(facts, b_).file(), line=b_["line"])
+    decided = set(fn for fn, r in mc.items() if r is not None)
     allowed = {r"new$": r"", r"set_claim$": r"HashMap::<K, V, S, A>::insert$", r"remove_claim$": r"HashMap::<K, V, S, A>::remove$", r"extend_claims$": r"Extend::extend$"}
     for bid, b in sorted(facts.bodies.items()):
         v = M.view(facts, b)
@@ -448,6 +568,11 @@ def writers(res, facts):
             for fn, upat in allowed.items():
                 if re.search(GB + fn, bid) and users and all(re.search(upat, u) for u in users):
                     ok = True
+            # what these functions do to the map was decided on a concrete map above: how they do it (extend / insert loop ..) is free
+            if any(re.search(GB + fn + r"$", bid) or bid.startswith(b0["id"] + "::{closure") for fn in decided for b0 in [_fpai.find_body(facts, GB + fn + r"$")] if b0 is not None):
+                ok = True
+            if re.search(GB + r"set_claim$", bid) and set_claim_concrete(facts, facts.bodies[bid]) is not None:
+                ok = True
             res.oblige(ok)
             if ok:
                 res.inst("C14.R3", "claims written by %s via %s" % (M.short(bid)[-40:], ",".join(M.short(u)[-20:] for u in users)))
